@@ -618,6 +618,7 @@ def run_roundtrip_check(ck, fmt, pr, gen):
     wq = {}         # writer correspondence: query id -> (case, label, text written by the library)
     mq = {}         # the same for MPS files
     tq = {}         # statement of C08_lp_roundtrip evaluated by the extracted code on the generated problem
+    nq = {}         # name repair: model fix_names vs announced renames
     e = "lp" if fmt == "LP" else "mps"
     for cid, P in probs.items():
         toks = outs.get(cid)
@@ -700,6 +701,15 @@ def run_roundtrip_check(ck, fmt, pr, gen):
                 Ar["objname"], Ar["intmarker"] = ren.get(on, on), A["intmarker"]
                 wq["%s.w%d" % (cid, j)] = (cid, lab, text)
                 q.append("Q %s.w%d lpwrite\n%s" % (cid, j, slp_block(Ar)))
+                # name repair: the model's fix_names on the original names vs the renames the writer announced
+                cn = [c[0] for c in A["cols"]]
+                rn = [r[0] for r in A["rows"]]
+                if all(n != "" or True for n in cn + rn):
+                    nq["%s.n%d" % (cid, j)] = (cid, lab, cn, rn, on, ren, A.get("objname") is None)
+                    q.append("Q %s.n%dc fixnames x %s" % (cid, j, " ".join(enc(n) for n in cn)))
+                    q.append("Q %s.n%dr fixnames c %s" % (cid, j, " ".join(enc(n) for n in rn + [on])))
+                    if A.get("objname") is None:
+                        q.append("Q %s.n%do defobj %s" % (cid, j, " ".join(enc(n) for n in rn)))
                 if fmt == "LP" and j == 0:
                     tq["%s.t" % cid] = cid
                     q.append("Q %s.t lprt\n%s" % (cid, slp_block(Ar)))
@@ -777,6 +787,24 @@ def run_roundtrip_check(ck, fmt, pr, gen):
                 fails.append((cid, "the LP text written differs from the writer model (line %d: %r vs model %r)" % (
                     d + 1, (tl[d] if d < len(tl) else b"")[:120], (ml[d] if d < len(ml) else b"")[:120]), {"LP"}, info[cid]["texts"]))
             corr_bad.append(msg)
+    nn, nren = 0, 0
+    for k2, (cid, lab, cn, rn, on, ren, noobj) in nq.items():
+        ac, ar = ans.get(k2 + "c"), ans.get(k2 + "r")
+        if ac is None or ar is None or (cn and len(ac) != len(cn)) or len(ar) != len(rn) + 1:
+            corr_bad.append("fixnames query %s: %s %s" % (k2, ac, ar))
+            continue
+        nn += 1
+        if noobj and ans.get(k2 + "o") != [enc(on)]:
+            corr_bad.append("default objective name of case %s: model %s, check %r" % (cid, ans.get(k2 + "o"), on))
+        model_ren = {}
+        for old, new in list(zip(cn, ac)) + list(zip(rn + [on], ar)):
+            if dec(new) != old:
+                model_ren[old] = dec(new)
+        nren += len(model_ren)
+        if model_ren != ren:
+            corr_bad.append("name repair of case %s file '%s': fix_names model renames %r, the writer announced %r" % (cid, lab, model_ren, ren))
+    if nq:
+        ck.cov["fix_names_correspondence"] = dict(tables_compared=nn, renames_predicted=nren, disagreements=sum(1 for x in corr_bad if x.startswith(("name repair", "default objective", "fixnames"))))
     if tq:
         nwf, nok, nrt = 0, 0, 0
         for k2, cid in tq.items():
